@@ -86,6 +86,15 @@ CLAIMS = {
          "panics confirmed through rustc; deep-nesting probe under rustc.",
          COMMON_NOTE + "the handler level of the model (Expand.lean) is covered by the correspondence, its no-panic proof is not complete yet (the proved part is the attribute layer all handlers are built from); syn's own parsers and the `parse2(quote!(..#user tokens..)).unwrap()` round-trips are assumed panic-free and exercised by the mutation stream; stack overflow inside syn on ~1000-deep nesting is an open known finding.",
          "Lean 4 theorems over oracle records + regenerated panic-site table + in-process mutation stream with rustc confirmation"),
+ "C13": ("Theorems (never accepted, wherever the offence stands): parameter_twice_refused (same switch in any spelling, e.g. name/rename), "
+         "bad_parameter_refused (unknown or position-disabled parameter), scanMetas_offence_refused (unknown trait / trait not educed at a field or "
+         "variant), scanMetas_twice_refused (trait or its synonym twice at one position), collectTop_twice_refused (trait twice on the type, Into "
+         "exempt), into_target_twice_refused, insertRank_present_none, union_needs_unsafe_eqLike, union_unsupported_ordLike / _deref; designation "
+         "clauses in Props/C08-C10 (ambiguous_refused, struct_refused_iff, variant_refused_iff, struct_target_refused_iff). Tie: ~1900 "
+         "invalid-by-construction inputs (every clause x shapes x positions x spellings) must be refused by the real macro in-process and by "
+         "the model with the same diagnostic class; valid inputs must be accepted by both.",
+         COMMON_NOTE + "diagnostic classes are obtained from message texts by a fixed prefix table (vlib/attr.py); the handler-level clauses (unit variant, nameless Debug) are covered by the correspondence, not by a separate theorem.",
+         "Lean 4 theorems over oracle records + invalid-by-construction correspondence (B4)"),
 }
 
 ENGINES = [
